@@ -8,7 +8,6 @@ import (
 	"strconv"
 	"strings"
 	"sync"
-	"sync/atomic"
 	"time"
 
 	"gircverif/drive"
@@ -341,24 +340,34 @@ func trRoute(h trHandler, e trEvent) int {
 
 // ---- running a scenario against the implementation ------------------------------------------
 
+// trLog is the stamp counter: actions in the order in which they were stamped (a mutex,
+// so the order is consistent with happens-before and a reader never sees a half-written slot).
 type trLog struct {
-	ctr  int64
+	mu   sync.Mutex
 	acts []trAct
 }
 
 func (l *trLog) stamp(a trAct) {
-	i := atomic.AddInt64(&l.ctr, 1)
-	if int(i) <= len(l.acts) {
-		l.acts[i-1] = a
-	}
+	l.mu.Lock()
+	l.acts = append(l.acts, a)
+	l.mu.Unlock()
 }
 
 func (l *trLog) result() []trAct {
-	n := int(atomic.LoadInt64(&l.ctr))
-	if n > len(l.acts) {
-		n = len(l.acts)
+	l.mu.Lock()
+	defer l.mu.Unlock()
+	return append([]trAct(nil), l.acts...)
+}
+
+func (l *trLog) closedSeen(h int) bool {
+	l.mu.Lock()
+	defer l.mu.Unlock()
+	for _, a := range l.acts {
+		if a.kind == 'x' && a.h == h {
+			return true
+		}
 	}
-	return append([]trAct(nil), l.acts[:n]...)
+	return false
 }
 
 func trMix(seed int64, a, b, c int) uint64 {
@@ -383,10 +392,11 @@ func trRun(sc *trScenario, seed int64, procs int) (obs []trAct, timedOut bool) {
 	defer s.Stop()
 	s.Settle(2*time.Millisecond, 200*time.Millisecond)
 
-	log := &trLog{acts: make([]trAct, 1<<16)}
+	log := &trLog{acts: make([]trAct, 0, 4096)}
 	stop := make(chan struct{})
 	var watchers sync.WaitGroup
 	cuids := make([]string, len(sc.handlers))
+	dones := make([]chan struct{}, len(sc.handlers))
 	var cuidMu sync.Mutex
 
 	seqOf := func(e girc.Event) int {
@@ -435,6 +445,9 @@ func trRun(sc *trScenario, seed int64, procs int) (obs []trAct, timedOut bool) {
 			}
 			var done chan struct{}
 			cuid, done = s.C.Handlers.AddTmp(d.cmd, dl, func(_ *girc.Client, e girc.Event) bool { return f(e) })
+			cuidMu.Lock()
+			dones[h] = done
+			cuidMu.Unlock()
 			watchers.Add(1)
 			go func() {
 				defer watchers.Done()
@@ -565,6 +578,23 @@ func trRun(sc *trScenario, seed int64, procs int) (obs []trAct, timedOut bool) {
 			break
 		}
 		time.Sleep(200 * time.Microsecond)
+	}
+	// a done channel that is closed by now has been seen closed by its watcher before the
+	// trace is taken
+	for h := range sc.handlers {
+		cuidMu.Lock()
+		done := dones[h]
+		cuidMu.Unlock()
+		if done == nil {
+			continue
+		}
+		select {
+		case <-done:
+			for until := time.Now().Add(10 * time.Second); !log.closedSeen(h) && time.Now().Before(until); {
+				time.Sleep(50 * time.Microsecond)
+			}
+		default:
+		}
 	}
 	obs = log.result()
 	close(stop)
